@@ -182,3 +182,79 @@ pub fn inv_ring_narrow<const B: usize>(nd: &mut Nd) {
         None => chk!(nd, "C02.inv_ring.none", x & 1 == 0),
     }
 }
+
+// ---- LATTICE operands, real multipliers, any limb count: every limb is one of eight boundary words chosen
+// by three free bits (0, 1, 2, 2^32-1, 2^32, 2^63, 2^64-2, 2^64-1), the top limb masked to the width.  Decides
+// the limb-level structure (zero trimming of leading/middle/trailing limbs, operand swap, row windows, carry
+// chains through all-ones limbs, overflow flag) at shapes the UF layer does not reach (>= 4 limbs).
+
+#[inline(always)]
+pub fn lat_word(nd: &mut Nd) -> u64 {
+    match nd.u8() & 7 {
+        0 => 0,
+        1 => 1,
+        2 => u64::MAX,
+        3 => 1 << 63,
+        4 => 1 << 32,
+        5 => u64::MAX - 1,
+        6 => 0xffff_ffff,
+        _ => 2,
+    }
+}
+
+#[inline(always)]
+pub fn lat_limbs<const L: usize>(nd: &mut Nd, bits: usize) -> [u64; L] {
+    let mut l = [0u64; L];
+    let mut i = 0;
+    while i < L {
+        l[i] = lat_word(nd);
+        i += 1;
+    }
+    refm::masked(l, bits)
+}
+
+pub fn mul_lattice<const B: usize, const L: usize, const W: usize>(nd: &mut Nd) {
+    let a = Uint::<B, L>::from_limbs(lat_limbs::<L>(nd, B));
+    let b = Uint::<B, L>::from_limbs(lat_limbs::<L>(nd, B));
+    let mut p = [0u64; W];
+    let _ = uf::school_real::<W>(&mut p, a.as_limbs(), b.as_limbs());
+    let (lo, over) = split::<L, W>(B, &p);
+    cov!(nd, "overflows", over);
+    cov!(nd, "fits-nonzero", !over && !refm::is_zero(&lo));
+    cov!(nd, "zero-middle-limb", L >= 3 && a.as_limbs()[1] == 0 && a.as_limbs()[0] != 0 && a.as_limbs()[L - 1] != 0);
+    let (r, o) = a.overflowing_mul(b);
+    chk!(nd, "C02.overflowing_mul.value", refm::eq(r.as_limbs(), &lo));
+    chk!(nd, "C02.overflowing_mul.flag", o == over);
+    let w = a.wrapping_mul(b);
+    chk!(nd, "C02.wrapping_mul.value", refm::eq(w.as_limbs(), &lo));
+}
+
+pub fn widening_lattice<
+    const B1: usize,
+    const L1: usize,
+    const B2: usize,
+    const L2: usize,
+    const BR: usize,
+    const LR: usize,
+    const W: usize,
+>(
+    nd: &mut Nd,
+) {
+    let a = Uint::<B1, L1>::from_limbs(lat_limbs::<L1>(nd, B1));
+    let b = Uint::<B2, L2>::from_limbs(lat_limbs::<L2>(nd, B2));
+    let mut p = [0u64; W];
+    let _ = uf::school_real::<W>(&mut p, a.as_limbs(), b.as_limbs());
+    let r: Uint<BR, LR> = a.widening_mul(b);
+    let mut ok = true;
+    let mut i = 0;
+    while i < W {
+        if i < LR {
+            ok &= r.as_limbs()[i] == p[i];
+        } else {
+            ok &= p[i] == 0;
+        }
+        i += 1;
+    }
+    chk!(nd, "C02.widening_mul.value", ok);
+    chk!(nd, "C02.widening_mul.canonical", refm::canonical(r.as_limbs(), BR));
+}
